@@ -422,6 +422,11 @@ def run(ctx):
             if bad:
                 mism.append(dict(oracle_fail=True, case=case_js, failed_clauses=bad, got=dict(X=str(X.tolist())[:300])))
 
+    # ---------------- Auto rules: the observed algorithm for these (small) operators is the dense one
+    auto_svd_dense = [i for i, mm in enumerate(smeta) if mm["case"].get("alg") in ("none", "Auto") and mm["case"].get("kind") is None]
+    rc, out = core.coqc_text("c16_auto", HEADER + "Eval vm_compute in (check_auto16 true true true, check_auto16 false false false).\n")
+    if rc != 0 or "(true, true)" not in out.replace("\n", " "):
+        mism.append(dict(oracle_fail=False, harness_error=f"Auto table of svd/pinv: rc={rc} {out[-500:]}"))
     # ---------------- in-Coq comparison
     for name, decl, terms, meta, chk in (("c16_s", "scase", sterms, smeta, "check_scase"), ("c16_p", "pcase16", pterms, pmeta, "check_pcase16")):
         fails = set()
@@ -441,4 +446,5 @@ def run(ctx):
              "oracle outputs as exact rationals, model compared exactly (dense) / at 1e-9 (back-substitution); Identity/Diagonal rules exact; pinv: reciprocal rules exact to 1e-13, "
              "LSTSQ = lstsq oracle (spec checked), CG composition with the solve as oracle data; distinct by case hash",
         samples=samples, mismatches=mism, findings=fnd,
-        extra=dict(histogram=hist, skipped_spoiled_region=skipped, steering_probes=steer, svd_cases_in_coq=len(sterms), pinv_cases_in_coq=len(pterms), ritz_only_cases_below=below))
+        extra=dict(histogram=hist, skipped_spoiled_region=skipped, steering_probes=steer, svd_cases_in_coq=len(sterms), pinv_cases_in_coq=len(pterms), ritz_only_cases_below=below,
+                   auto_rule_observations=len(auto_svd_dense)))
